@@ -15,7 +15,7 @@ class Project:
         self.bld = os.path.join(self.root, 'bld')
         self.log = os.path.join(self.root, 'log')
         self.model = Model(spec)
-        extra = proj.stub_toolchain_env(self.log)
+        extra = proj.stub_toolchain_env(self.log, backend)
         extra.update({'CP': 'vwrap-cp -f', 'SYMLINK': 'vwrap-ln -sf',
                       'HARDLINK': 'vwrap-ln -f', 'VSTUB_ENVKEYS': 'VF_E'})
         if stub_install:
